@@ -35,6 +35,10 @@ BV_LEAVES = [("vb",), ("ub",)]
 # that sibling sub-trees can be textually identical while each must still be evaluated
 ID_I = [("cn",)]
 ID_B = [("cb",)]
+# carrier leaves: silent reads of a value that lives in a container - a list element through a variable index, an object field
+# (the operand then reaches the operator as a reference into the container, not as a plain value)
+CI_LEAVES = [("ei",), ("fi",)]
+CB_LEAVES = [("eb",), ("eb0",), ("fb",)]
 IC_LEAVES = [("k2",), ("k0",)]
 BC_LEAVES = [("ct",), ("cf",)]
 LEAVES = {"I": I_LEAVES, "B": B_LEAVES, "O": O_LEAVES}
@@ -57,7 +61,7 @@ class leafset:
 
 def ty(n):
     k = n[0]
-    if k in ("bt", "bf", "vb", "ub", "ct", "cf", "cb", "&&", "||", "^", "!") or k in CMP:
+    if k in ("bt", "bf", "vb", "ub", "ct", "cf", "cb", "eb", "eb0", "fb", "&&", "||", "^", "!") or k in CMP:
         return "B"
     if k in ("o", "on"):
         return "O"
@@ -232,6 +236,16 @@ class Builder:
             return ("bool", True)
         if k == "cf":
             return ("bool", False)
+        if k == "ei":
+            return ("index", V("li"), V("ix"))
+        if k == "eb":
+            return ("index", V("lb"), V("ix"))
+        if k == "eb0":
+            return ("index", V("lb"), V("iy"))
+        if k == "fi":
+            return ("field", V("hk"), "fi")
+        if k == "fb":
+            return ("field", V("hk"), "fb")
         if k == "v":
             return V("gx")
         if k == "u":
@@ -347,7 +361,13 @@ def prelude(used=None):
              [("print", ("bin", "+", ("bin", "+", ("str", "m "), V("a")), ("bin", "+", ("str", " "), V("b")))),
               ("return", ("bin", "+", ("bin", "-", V("a"), V("b")), ("field", V("self"), "base")))])])
     ko = ("assign", "ko", ("new", "K", [lit(10)]), None, ())
-    need = {"cn": [cnt, cn], "cb": [cnt, cb], "v": [gx], "u": [gx, u], "vb": [gb], "ub": [gb, ub], "t": [t], "r": [t, r], "bt": [bv], "bf": [bv], "o": [ov], "on": [ov], "f2": [f2], "f3": [f3], "f4": [f4],
+    li = ("assign", "li", ("list", [lit(2), lit(3)]), "[int...]", ())
+    lb = ("assign", "lb", ("list", [("bool", True), ("bool", False)]), "[bool...]", ())
+    ix = ("assign", "ix", lit(0), None, ())
+    iy = ("assign", "iy", lit(1), None, ())
+    hcls = ("class", "Hk", [("fi", "int"), ("fb", "bool")], ([], [("setfield", V("self"), "fi", lit(2)), ("setfield", V("self"), "fb", ("bool", True))]), [])
+    hk = ("assign", "hk", ("new", "Hk", []), None, ())
+    need = {"ei": [li, ix], "eb": [lb, ix], "eb0": [lb, iy], "fi": [hcls, hk], "fb": [hcls, hk], "cn": [cnt, cn], "cb": [cnt, cb], "v": [gx], "u": [gx, u], "vb": [gb], "ub": [gb, ub], "t": [t], "r": [t, r], "bt": [bv], "bf": [bv], "o": [ov], "on": [ov], "f2": [f2], "f3": [f3], "f4": [f4],
             "sum3": [sum3], "idx": [pick], "+s": [slen], "msum": [msum], "m": [cls, ko],
             "iife": [], "fldm": [f2, holder, kh], "fldp": [f2, holder, kh], "elem": [f2, fl2], "res": [f2, mk2]}
     out = []
@@ -385,7 +405,7 @@ def body_of(tree, ctx, k=""):
     raise ValueError(ctx)
 
 
-ORDER = ["cn", "cb", "v", "u", "vb", "ub", "t", "r", "bt", "bf", "o", "on", "f2", "f3", "f4", "sum3", "idx", "+s", "msum", "m"] + CALLEE_FORMS
+ORDER = ["ei", "eb", "eb0", "fi", "fb", "cn", "cb", "v", "u", "vb", "ub", "t", "r", "bt", "bf", "o", "on", "f2", "f3", "f4", "sum3", "idx", "+s", "msum", "m"] + CALLEE_FORMS
 
 
 def used_of(tree, ctx):
@@ -483,6 +503,12 @@ class C15(Check):
         ls.append(("Li-identical-leaves-depth<=2-full(+depth-3-rule-1)", [(n, c) for n in i1 for c in ("print", "if", "assign")] +
                    [(n, c) for n in i2 for c in (("print",) if tier == "quick" else ("print", "if", "assign"))] +
                    [(n, "print") for n in (i3 if tier == "thorough" else i3[::17])]))
+        with leafset(I=CI_LEAVES + [("t",)], B=CB_LEAVES + [("bt",)]):
+            c1 = [n for n in depth1() if any(x in ("ei", "eb", "eb0", "fi", "fb") for x in _ops(n))]
+            cm = {}
+            c2 = [n for t in ("I", "B") for n in trees_rule1(2, t, cm) if tdepth(n) == 2 and any(x in ("ei", "eb", "eb0", "fi", "fb") for x in _ops(n))]
+        ls.append(("Lc0-depth1-carrier-leaves(list-element,field)-all-contexts", [(n, c) for n in c1 for c in ctxs]))
+        ls.append(("Lc1-depth2-rule1-carrier-leaves", [(n, "print") for n in (c2 if tier == "thorough" else c2[::12])]))
         ls.append(("Lk0-depth1-constant-leaves-all-contexts", [(n, c) for n in k1 for c in ctxs]))
         ls.append(("Lk1-depth2-rule1-constant-leaves", [(n, c) for n in k2_ for c in (("print",) if tier == "quick" else ("print", "assign", "if"))]))
         ls.append(("Lv0-depth1-variable+mutator-leaves-all-contexts", [(n, c) for n in v1 for c in ctxs]))
@@ -606,7 +632,7 @@ class C15(Check):
 
     def finish(self, stats, tier):
         errs = []
-        for o in ALL_OPS + ["v", "u", "vb", "ub", "k2", "ct", "cf", "cn", "cb"]:
+        for o in ALL_OPS + ["v", "u", "vb", "ub", "k2", "ct", "cf", "cn", "cb", "ei", "eb", "fi", "fb"]:
             if not stats["tags"].get(f"op{o}"):
                 errs.append(f"vacuity: node kind {o} never executed")
         if not stats["tags"].get("ctx-print~minparen"):
